@@ -338,6 +338,9 @@ CALLS = [
     "  call s3(1, (2+3), c=4)",
     "  call s3(f3(1, 2, 3), g2(4, 5))",
     "  k = g2(lenof(\"x)y\"), 2)",
+    "  call s3(c=3, b=2, a=1)",
+    "  call s3(b=2, a=k)",
+    "  k = f3(r=3, q=g2(v=2, u=1), p=1)",
 ]
 
 
@@ -375,8 +378,35 @@ def reference_signature(line, col):
             m = re.match(r"\s*(\w+)\s*=", cur)
             if m and m.group(1) in SIGS[callee]:
                 idx = SIGS[callee].index(m.group(1))
+            elif idx > 0 and _earlier_keyword(line, col, callee):
+                # after a keyword argument only keyword arguments may follow: until `name=` is typed the
+                # parameter the cursor is in is not determined
+                return None, None, q is not None
             return callee, idx, q is not None
     return None, None, q is not None
+
+
+def _earlier_keyword(line, col, callee):
+    """Does an earlier argument of the innermost call of `callee` before col use the keyword form?"""
+    start = line.rfind(callee + "(", 0, col)
+    seg = line[start + len(callee) + 1:col]
+    depth, q, cur, args = 0, None, "", []
+    for ch in seg:
+        if q:
+            if ch == q:
+                q = None
+        elif ch in "'\"":
+            q = ch
+        elif ch == "(":
+            depth += 1
+        elif ch == ")":
+            depth -= 1
+        elif ch == "," and depth == 0:
+            args.append(cur)
+            cur = ""
+            continue
+        cur += ch
+    return any(re.match(r"\s*\w+\s*=[^=]", a) for a in args)
 
 
 def sig_case(call, acc: Acc):
@@ -436,7 +466,7 @@ def main(ctx):
     ctx.rule = (f"declarations: 7 types x their kind/len selectors x ordered attribute lists of <= {maxattrs} attributes x entity forms "
                 "x with/without '::' x 8 documentation placements, PARAMETER values with nested parentheses / arrays / strings, dummy "
                 "arguments with INTENT/OPTIONAL; procedures: subroutine/function x 0-3 dummies x optional position x documented; "
-                "signature: 8 calls x every column of the argument list. Non-trivial: all; distinct by case.")
+                "signature: 11 calls x every column of the argument list. Non-trivial: all; distinct by case.")
     ctx.assumptions = ["hover is compared field by field modulo blanks and letter case (type+selector, attribute set, name, value, docs)",
                        "a parenthesised sub-expression inside an argument belongs to that argument of the enclosing call"]
     dacc = core.pmap(decl_case, decl_cases(maxattrs), chunk=16, budget_s=120, label="C11/decl")
